@@ -39,7 +39,38 @@ use crate::{
     writer::{write_generated, Output},
 };
 
+/// Verification entry (off by default): `main`'s dispatch with an explicit argument vector and
+/// without logger start-up, so that a simulator can run many invocations in one process.
+#[cfg(typeshare_verif)]
+mod verif_hooks {
+    use super::*;
+
+    pub fn run_once(argv: Vec<String>) -> Result<(), String> {
+        let dispatch = || -> anyhow::Result<()> {
+            let options = Args::try_parse_from(argv)?;
+            if options.subcommand.is_some() {
+                return Ok(());
+            }
+            let config_file = options.config_file.as_deref();
+            if options.output.generate_config {
+                override_configuration(Config::default(), &options)
+                    .and_then(|config| config::store_config(&config, config_file))
+                    .inspect_err(|err| error!("typeshare failed to create new config file: {err}"))
+            } else {
+                generate_types(config_file, &options).inspect_err(|err| {
+                    error!("typeshare failed to generate types: {err}");
+                })
+            }
+        };
+        // what the process prints when `main` returns an error
+        dispatch().map_err(|err| format!("Error: {err:?}"))
+    }
+}
+
 fn main() -> anyhow::Result<()> {
+    #[cfg(typeshare_verif)]
+    return verif_rt::sim_main(verif_hooks::run_once);
+
     flexi_logger::Logger::try_with_env_or_str("info")?
         .adaptive_format_for_stderr(AdaptiveFormat::Opt)
         .adaptive_format_for_stdout(AdaptiveFormat::Opt)
